@@ -53,14 +53,16 @@ fn disagree(real: &Observed, rf: &(String, Vec<u8>, String)) -> Option<&'static 
 }
 
 fn shrink(text: &str, what: &str) -> String {
+    // time-boxed: shrinking is a convenience, the unshrunk program is a failing input already
+    let deadline = std::time::Instant::now() + std::time::Duration::from_secs(25);
     let mut lines: Vec<String> = text.lines().map(|l| l.to_owned()).collect();
     let mut changed = true;
     let mut rounds = 0;
-    while changed && rounds < 6 {
+    while changed && rounds < 6 && std::time::Instant::now() < deadline {
         changed = false;
         rounds += 1;
         let mut i = 0;
-        while i < lines.len() {
+        while i < lines.len() && std::time::Instant::now() < deadline {
             let mut cand = lines.clone();
             cand.remove(i);
             let t = cand.join("\n") + "\n";
